@@ -3,7 +3,7 @@
 -- value is shorter than 2^62 bytes, which is where Go's wrap-around is the identity).
 -- Heavy case analyses are proved once about a normal form (Proofs/SnapStr.lean, built by lake); here the
 -- freshly translated function is shown to BE that normal form.
--- functions: ds/str String.Strlen, ds/str String.GetRange, ds/str String.Append, ds/str String.Set, ds/str String.Get, ds/str String.GetSet
+-- functions: ds/str String.getBit, ds/str String.GetBit, ds/str String.Strlen, ds/str String.GetRange, ds/str String.Append, ds/str String.Set, ds/str String.Get, ds/str String.GetSet
 -- properties: C01
 -- import: NodisVerif.Model.DsStr
 -- import: NodisVerif.Proofs.SnapStr
@@ -21,6 +21,20 @@ theorem str_GetRange_eq_model (v : Bytes) (a b : Int) (hv : v.length < 2 ^ 62) (
   rw [str_GetRange_is_normal_form]; exact StrNF.GetRange_eq_model v a b hv ha hb
 
 example : str.String_.GetRange ⟨[104, 101, 108, 108, 111]⟩ (-3) (-2) = .ok [108, 108] := by decide
+
+theorem str_getBit_is_normal_form (v : Bytes) (o : Int) : str.String_.getBit ⟨v⟩ o = StrNF.getBit v o := by
+  first | rfl | simp [str.String_.getBit, StrNF.getBit]
+
+/-- `getBit` / `GetBit` are the model's `getBit` for every int64 offset (bit 7−(offset mod 8) of byte offset/8; 0 outside) and never panic -/
+theorem str_getBit_eq_model (v : Bytes) (o : Int) (hv : v.length < 2 ^ 62) (ho : inInt64 o) :
+    str.String_.getBit ⟨v⟩ o = .ok (DsStr.getBit (some v) o) := by
+  rw [str_getBit_is_normal_form]; exact StrNF.getBit_eq_model v o hv ho
+
+theorem str_GetBit_eq_model (v : Bytes) (o : Int) (hv : v.length < 2 ^ 62) (ho : inInt64 o) :
+    str.String_.GetBit ⟨v⟩ o = .ok (DsStr.getBit (some v) o) := by
+  simp only [str.String_.GetBit, str_getBit_eq_model v o hv ho, bind, Except.bind, pure, Except.pure]
+
+example : str.String_.getBit ⟨[0xA5]⟩ 2 = .ok 1 ∧ str.String_.getBit ⟨[0xA5]⟩ 1 = .ok 0 := by decide
 
 theorem str_Append_eq_model (v d : Bytes) (h : ¬ (v = [] ∧ d = [])) :
     str.String_.Append ⟨v⟩ d = .ok (⟨v ++ d⟩, (DsStr.append (some v) d).2) := by
